@@ -6,7 +6,7 @@ PROP = 'C10'
 
 def run(tier, seed):
     return netcheck.run_net(PROP, tier, seed,
-        profiles=[('idl', 100, 1200, 45), ('rdl', 100, 1200, 45), ('mix', 20, 200, 40), ('dlrel', 60, 600, 25)],
+        profiles=[('idl', 100, 1200, 45), ('rdl', 100, 1200, 45), ('mix', 20, 200, 40), ('dlrel', 30, 600, 25)],
         rule='(1) every transition of the state graph of the implementation-shaped model DiffLogicImpl (spec/DiffLogicGen.tla prints one test per transition: shortest history to the source state + the action) replayed on idl_theory and rdl_theory, the reported distance matrix compared with the model after every level episode, pop and conflict backjump; (2) seeded sets of difference constraints over 1-3 time points plus the origin (several constraints on the same pair, '
              'initial matrix of 2 so that it grows, integer and half-integer weights with infinitesimals) asserted, negated and '
              'retracted in random orders; after every successful propagation the reported matrix equals the Floyd-Warshall '
